@@ -2,6 +2,7 @@ package rules
 
 import (
 	"fmt"
+	"go/token"
 	"strings"
 
 	"golang.org/x/tools/go/ssa"
@@ -63,50 +64,11 @@ func ruleFlows(r *core.Run, prop string) {
 			for _, a := range e.Args {
 				args = append(args, normT(a.String()))
 			}
-			matched := -1
-			why := "no row for this function/method"
-			for i, row := range rows {
-				if row.Fn != r.P.Name(f) || row.Method != e.Method {
-					continue
-				}
-				// split args: module names are string constants / params per moduleArgPositions; rest: party, amount
-				pos := moduleArgPositions(e.Method)
-				isMod := map[int]bool{}
-				for _, p := range pos {
-					isMod[p] = true
-				}
-				var mods, rest []string
-				for j, a := range args {
-					if isMod[j] {
-						mods = append(mods, strings.Trim(a, `"`))
-					} else {
-						rest = append(rest, a)
-					}
-				}
-				ok := len(mods) == len(row.Mod)
-				for j := range mods {
-					if ok && mods[j] != row.Mod[j] {
-						ok = false
-						why = fmt.Sprintf("module accounts %v differ from the table's %v", mods, row.Mod)
-					}
-				}
-				party, amount := "", ""
-				if len(rest) == 2 {
-					party, amount = rest[0], rest[1]
-				} else if len(rest) == 1 {
-					amount = rest[0]
-				}
-				if ok && row.Party != "" && !guard.Glob(normT(row.Party)).MatchString(party) {
-					ok = false
-					why = "counter-party " + shorten(party) + " is not " + row.Party
-				}
-				if ok && !guard.Glob(normT(row.Amount)).MatchString(amount) {
-					ok = false
-					why = "amount " + shorten(amount) + " is not of the form " + row.Amount
-				}
-				if ok {
-					matched = i
-					break
+			matched, why := matchFlowRow(rows, r.P.Name(f), e.Method, args)
+			if matched < 0 {
+				// the call may have been moved into a helper of a tabled function: re-read it in each caller's vocabulary
+				if m2, ok := matchThroughCallers(r, rows, f, e.Method, args); ok {
+					matched = m2
 				}
 			}
 			if matched >= 0 {
@@ -123,6 +85,102 @@ func ruleFlows(r *core.Run, prop string) {
 		}
 	}
 	r.Floor("bank_call_sites", n, 19)
+}
+
+// matchFlowRow: index of the first row of fnName/method that the argument terms satisfy, or -1 and why not.
+func matchFlowRow(rows []flowRow, fnName, method string, args []string) (int, string) {
+	matched := -1
+	why := "no row for this function/method"
+	for i, row := range rows {
+		if row.Fn != fnName || row.Method != method {
+			continue
+		}
+		// split args: module names are string constants / params per moduleArgPositions; rest: party, amount
+		pos := moduleArgPositions(method)
+		isMod := map[int]bool{}
+		for _, p := range pos {
+			isMod[p] = true
+		}
+		var mods, rest []string
+		for j, a := range args {
+			if isMod[j] {
+				mods = append(mods, strings.Trim(a, `"`))
+			} else {
+				rest = append(rest, a)
+			}
+		}
+		ok := len(mods) == len(row.Mod)
+		for j := range mods {
+			if ok && mods[j] != row.Mod[j] {
+				ok = false
+				why = fmt.Sprintf("module accounts %v differ from the table's %v", mods, row.Mod)
+			}
+		}
+		party, amount := "", ""
+		if len(rest) == 2 {
+			party, amount = rest[0], rest[1]
+		} else if len(rest) == 1 {
+			amount = rest[0]
+		}
+		if ok && row.Party != "" && !guard.Glob(normT(row.Party)).MatchString(party) {
+			ok = false
+			why = "counter-party " + shorten(party) + " is not " + row.Party
+		}
+		if ok && !guard.Glob(normT(row.Amount)).MatchString(amount) {
+			ok = false
+			why = "amount " + shorten(amount) + " is not of the form " + row.Amount
+		}
+		if ok {
+			matched = i
+			break
+		}
+	}
+	return matched, why
+}
+
+// matchThroughCallers: f has no row of its own; every consensus caller's instantiation of the call (f's parameter
+// tokens replaced by the caller's argument terms) must match a row of that caller.
+func matchThroughCallers(r *core.Run, rows []flowRow, f *ssa.Function, method string, args []string) (int, bool) {
+	found := -1
+	n := 0
+	for _, caller := range r.P.CG.In[f] {
+		if !r.ConsensusFuncs()[caller] {
+			continue
+		}
+		cres := r.Resolver(caller)
+		for _, site := range r.P.CG.Sites[caller] {
+			hit := false
+			for _, c := range site.Callees {
+				if c == f {
+					hit = true
+				}
+			}
+			if !hit {
+				continue
+			}
+			n++
+			off := 0
+			if site.Instr.Common().IsInvoke() {
+				off = 1
+			}
+			subst := make([]string, len(f.Params))
+			for i, a := range site.Instr.Common().Args {
+				if i+off < len(subst) {
+					subst[i+off] = normT(cres.Of(a).String())
+				}
+			}
+			inst := make([]string, len(args))
+			for i, a := range args {
+				inst[i] = normT(guard.SubstParams(a, subst))
+			}
+			m, _ := matchFlowRow(rows, r.P.Name(caller), method, inst)
+			if m < 0 {
+				return -1, false
+			}
+			found = m
+		}
+	}
+	return found, n > 0 && found >= 0
 }
 
 // ruleShardReleaseCallers: at every call ShardRelease(sp, shard) with a non-nil shard, sp is the address of shard.Sp
@@ -234,4 +292,76 @@ func ruleWithdrawClass(r *core.Run) {
 		}
 	}
 	r.Floor("refund_contributions", n, 2)
+}
+
+// ruleReplicaGiveUp (T-replica-dec): when the timeout handler gives missing
+// replicas up and refunds them, Order.Replica is lowered by a counter that is
+// incremented exactly for the shards that are still waiting (one per live,
+// unserved replica). Stale records of earlier re-assignments (status timeout)
+// or in-flight migrations are not replicas: counting them refunds replicas that
+// are still stored and earning.
+func ruleReplicaGiveUp(r *core.Run) {
+	const id = "T-replica-dec"
+	fnName := "sao/keeper.Keeper.HandleTimeoutOrder"
+	fn := r.Func(id, fnName)
+	if fn == nil {
+		return
+	}
+	res := r.Resolver(fn)
+	ck := &guard.Checker{P: r.P, Fn: fn, Res: res}
+	waiting := constVal(r, "order/types", "ShardWaiting")
+	n := 0
+	for _, b := range fn.Blocks {
+		for _, ins := range b.Instrs {
+			st, ok := ins.(*ssa.Store)
+			if !ok {
+				continue
+			}
+			fa, ok := st.Addr.(*ssa.FieldAddr)
+			if !ok || fieldPath(fa) != "order/types.Order.Replica" {
+				continue
+			}
+			bo, ok := st.Val.(*ssa.BinOp)
+			if !ok || bo.Op != token.SUB {
+				continue
+			}
+			n++
+			key := core.Key(id, fnName, fmt.Sprintf("Replica decrement#%d", n))
+			v := bo.Y
+			for {
+				if c, ok := v.(*ssa.Convert); ok {
+					v = c.X
+					continue
+				}
+				break
+			}
+			okCounter := false
+			why := "the amount subtracted (" + shorten(normT(res.Of(bo.Y).String())) + ") is not a counter"
+			if _, isPhi := v.(*ssa.Phi); isPhi {
+				okCounter = true
+				incs := 0
+				for w := range phiWeb(v) {
+					add, ok := w.(*ssa.BinOp)
+					if !ok || add.Op != token.ADD {
+						continue
+					}
+					incs++
+					if ok2, _ := ck.MustPass(add.Block(), []guard.Atom{guard.Eq("*order/keeper.Keeper.GetShard(*)#0.Status", waiting)}); !ok2 {
+						okCounter = false
+						why = "the counter subtracted is incremented at " + r.P.Pos(add.Pos()) + " without establishing shard.Status == ShardWaiting"
+					}
+				}
+				if incs == 0 {
+					okCounter = false
+					why = "the value subtracted is never incremented"
+				}
+			}
+			if okCounter {
+				r.Discharge(id, key, r.P.Pos(st.Pos()), "Replica is lowered by the number of shards found waiting")
+			} else {
+				r.Violate(id, key, r.P.Pos(st.Pos()), "the timeout handler lowers Order.Replica (and refunds price x size x duration per replica from the market escrow) by something other than the number of shards still waiting: "+why+". Records of earlier re-assignments (status timeout) or in-flight migrations are not replicas; counting them refunds replicas that are stored and earning, so the market escrow owes its providers more than it holds")
+			}
+		}
+	}
+	r.Floor("replica_decrements", n, 1)
 }
